@@ -23,7 +23,10 @@ pub fn run_stream(out: &mut Out, prop: &str, rng: &mut Rng, n: u64) {
             if let (Ok(s), Outcome::Ok(got)) = (&run.sim, &run.exec) {
                 if s != got {
                     if case.revisits() { out.known_hit("C14", "route_revisits_pool", "router simulation differs from execution for a route passing twice through the same pair", replay.clone()); }
-                    else if case.has_donation() { if got < s { out.monitor_fail("C14", "router paid less than simulated although it held extra funds", replay.clone()); } }
+                    // funds somebody parked on the router join the hop (it swaps its whole balance): the property's equality is about routes
+                    // executed by a router holding nothing else, and net proceeds are not monotone in the amount swapped (fee floors that
+                    // step together), so neither = nor >= is claimed here; the model correspondence still compares these cases exactly
+                    else if case.has_donation() { out.count("router:donation_not_compared"); }
                     else { out.monitor_fail("C14", "router simulation differs from what the receiver got", replay.clone()); }
                 }
             }
